@@ -65,6 +65,8 @@ func encodeToJSON(val any) ([]byte, error) {
 // toStringKeyMap processes the data to ensure that all map keys are of type string.
 func toStringKeyMap(v any) any {
 	switch v := v.(type) {
+	case nil:
+		return nil
 	case []any:
 		return convertSlice(v)
 	case map[any]any:
